@@ -118,6 +118,22 @@ fn check_item(it: &Item) -> Report {
             }
         }
     }
+    // translator validation: natively at f64 both layouts must give bit-identical values as well
+    if chk.rep.findings.is_empty() {
+        let nv = entry::native_vals(&it.base, 7);
+        for ep in &it.eps {
+            let (na, nb) = (entry::native_run(&it.base, &nv, ep, None, None), entry::native_run(&it.variant, &nv, ep, None, None));
+            chk.rep.validations += 1;
+            let same = match (&na, &nb) {
+                (Ok(x), Ok(y)) => x.shape == y.shape && x.values.iter().zip(&y.values).all(|(p, q)| p.to_bits() == q.to_bits()),
+                (Err(_), Err(_)) => true,
+                _ => false,
+            };
+            if !same {
+                chk.rep.errors.push(format!("{}: {} differs natively between the layouts although the symbolic runs agree (translator validation)", it.variant.name(), ep.name()));
+            }
+        }
+    }
     chk.rep.witnesses_expected += 1;
     if n_ok > 0 {
         chk.rep.witnesses_found += 1;
